@@ -101,10 +101,12 @@ impl Executor for StatefulExecutor {
             // timeout: so it has to happen before the remaining time is taken
             if let Some(ref wait) = testcase.config.wait {
                 debug!("waiting {}", wait);
+                // .. but not longer than the global timeout allows
+                let wait_timeout = timeout_left().map_or(wait.timeout, |left| left.min(wait.timeout));
                 if let Some(ref path) = wait.path {
-                    wait_until_path_or_time(&context.temp_directory.join(path), wait.timeout)
+                    wait_until_path_or_time(&context.temp_directory.join(path), wait_timeout)
                 } else {
-                    sleep(wait.timeout);
+                    sleep(wait_timeout);
                 }
             }
 
